@@ -10,7 +10,7 @@ import (
 )
 
 var verifC08CreateBefore, verifC08CreateFail [][]parser.Statement
-var verifC08CreateCommit, verifC08CreateSelT, verifC08CreateSelN []parser.Statement
+var verifC08CreateCommit, verifC08CreateAgain []parser.Statement
 
 func VerifC08CreateSetup() {
 	for _, s := range []string{
@@ -29,10 +29,13 @@ func VerifC08CreateSetup() {
 		"create table `m.csv` (p, q) select id from t;", // the number of columns does not match
 		"create table `m.csv` (p, p);",                  // duplicate column
 		"create table `m.csv` select 1 / 0;",
+		"create table `m.csv` (p, p) select 1, 2;", // duplicate column with a query of the right width
+		"create table `m.csv` (p, q) select 1, 2 from nosuch;",
 	} {
 		verifC08CreateFail = append(verifC08CreateFail, verifParse(s))
 	}
 	verifC08CreateCommit = verifParse("commit;")
+	verifC08CreateAgain = verifParse("create table `m.csv` (p, q) select 1, 2;")
 }
 
 // A CREATE TABLE that is refused - the file exists already (it belongs to this transaction's own
@@ -58,6 +61,13 @@ func VerifC08RefusedCreate() {
 		_ = proc.ReleaseResourcesWithErrors()
 		return
 	}
+	mAgain := fi >= 4
+	if mAgain {
+		verifAssert("the refused CREATE leaves no file behind", !verifFileExists("m.csv") && !verifFileExists(".m.csv.lock"))
+		// the corrected statement in the same transaction
+		_, err = proc.Execute(verifCtx(), verifC08CreateAgain)
+		verifAssert("the corrected CREATE TABLE succeeds", err == nil)
+	}
 	_, err = proc.Execute(verifCtx(), verifC08CreateCommit)
 	verifAssert("commit succeeds", err == nil)
 	_ = proc.AutoRollback()
@@ -78,6 +88,14 @@ func VerifC08RefusedCreate() {
 			wantN = "x\n"
 		}
 		verifAssert("the created table holds the transaction's work", verifFileRead("n.csv") == wantN)
+	}
+	if mAgain {
+		verifAssert("the table of the corrected CREATE is written", verifFileRead("m.csv") == "p,q\n1,2\n")
+		if nExists {
+			list = "m.csv\nn.csv\nt.csv"
+		} else {
+			list = "m.csv\nt.csv"
+		}
 	}
 	verifAssert("no other file and no control file exists", verifFileList() == list)
 	verifObserve("files", int64(len(list)))
